@@ -433,7 +433,7 @@ def gen_shape_cases(rng):
         # grouping by expressions, HAVING on an unselected aggregate, DISTINCT over an outer join
         ("select a + b, count(*) from t1 group by a + b", False),
         ("select a from t1 group by a having sum(b) > %d" % k, False),
-        ("select a %% 2, max(b) from t1 where a is not null group by a %% 2 having count(*) >= 1", False),
+        ("select a % 2, max(b) from t1 where a is not null group by a % 2 having count(*) >= 1", False),
         ("select distinct t1.a, t2.x from t1 left join t2 on t1.a = t2.x", False),
         ("select distinct t2.y from t1 full join t2 on t1.a = t2.x where t1.a is null", False),
         # IN / EXISTS over derived tables and under outer joins
